@@ -1298,33 +1298,36 @@ theorem zDelete_refines {db : DB} (hz : db.ZWF) (now : Int) (k : Bytes) (es : Li
 theorem map_elem_proj (l : List ZRow) : l.map (·.elem) = (l.map zPair).map (·.1) := by
   rw [List.map_map]; rfl
 
-/-- `DeleteWith.ByRank`, outside D09 -/
-theorem zDeleteRank_refines {db : DB} (hz : db.ZWF) (now : Int) (k : Bytes) (a b : Int)
-    (hd : (decide (a ≥ 0) && decide (b ≥ 0) && decide (b - a + 1 < 0)) = false) :
+/-- `DeleteWith.ByRank`, for every pair of ranks (D09 is repaired: an inverted range removes
+nothing) -/
+theorem zDeleteRank_refines {db : DB} (hz : db.ZWF) (now : Int) (k : Bytes) (a b : Int) :
     Refines now (update (fun d => Model.zDeleteRank d k a b now) db)
       (Spec.zRemove (abs now db) k
         ((rankSlice (zsorted (zsetAt (abs now db) k)) a b).map (·.1))) := by
-  by_cases hneg : a < 0 ∨ b < 0
-  · have h1 : (decide (a < 0) || decide (b < 0)) = true := by simpa using hneg
-    have h2 : a < 0 ∨ b < 0 ∨ a > b := by omega
-    have hm : update (fun d => Model.zDeleteRank d k a b now) db = ⟨.ok (.int 0), db⟩ := by
-      simp [update, Model.zDeleteRank, h1, Res.ok]
+  by_cases hneg : a < 0 ∨ b < 0 ∨ a > b
+  · have hm : update (fun d => Model.zDeleteRank d k a b now) db = ⟨.ok (.int 0), db⟩ := by
+      by_cases h1 : a < 0 ∨ b < 0
+      · have h1' : (decide (a < 0) || decide (b < 0)) = true := by simpa using h1
+        simp [update, Model.zDeleteRank, h1', Res.ok]
+      · have h1' : (decide (a < 0) || decide (b < 0)) = false := by
+          simp only [Bool.or_eq_false_iff, decide_eq_false_iff_not]; omega
+        have hab : a > b := by omega
+        simp [update, Model.zDeleteRank, h1', hab, Res.ok]
     have hs : rankSlice (zsorted (zsetAt (abs now db) k)) a b = [] := by
-      unfold rankSlice; rw [if_pos h2]
+      unfold rankSlice; rw [if_pos hneg]
     rw [hm, hs, List.map_nil, zRemove_nil]
     exact refines_same hz.toWF _
   · have h1 : (decide (a < 0) || decide (b < 0)) = false := by
       simp only [Bool.or_eq_false_iff, decide_eq_false_iff_not]; omega
-    have hab : a ≤ b + 1 := by
-      simp only [Bool.and_eq_false_iff, decide_eq_false_iff_not] at hd
-      omega
+    have hab : ¬ a > b := by omega
     have hv : (sqlLimit a (b - a + 1) (zLiveRows db k now)).map (·.elem)
         = (rankSlice (zsorted (zsetAt (abs now db) k)) a b).map (·.1) := by
-      rw [Redka.Props.C02.rank_delete_refines_partial _ a b (by omega) (by omega) hab,
-        map_elem_proj, rankSlice_map, zLiveRows_proj hz]
+      have := Redka.Props.C02.rank_slice_refines_partial (zLiveRows db k now) a b (by omega) (by omega)
+      rw [if_neg hab] at this
+      rw [this, map_elem_proj, rankSlice_map, zLiveRows_proj hz]
     have hm : Model.zDeleteRank db k a b now
         = zDeleteWhere db k ((rankSlice (zsorted (zsetAt (abs now db) k)) a b).map (·.1)) now := by
-      simp only [Model.zDeleteRank, h1, Bool.false_eq_true, if_false, hv]
+      simp only [Model.zDeleteRank, h1, hab, Bool.false_eq_true, if_false, hv]
     obtain ⟨v, hvo⟩ := zDeleteWhere_isOk db k
       ((rankSlice (zsorted (zsetAt (abs now db) k)) a b).map (·.1)) now
     rw [update_of_ok (f := fun d => Model.zDeleteRank d k a b now)
@@ -1449,7 +1452,9 @@ theorem zDeleteRank_wf {db : DB} (hz : db.ZWF) (k : Bytes) (a b : Int) (now : In
   unfold Model.zDeleteRank
   split
   · exact hz
-  · exact zDeleteWhere_wf hz now k _
+  · split
+    · exact hz
+    · exact zDeleteWhere_wf hz now k _
 
 theorem zDeleteScore_wf {db : DB} (hz : db.ZWF) (k : Bytes) (lo hi : Score) (now : Int) :
     (update (fun d => Model.zDeleteScore d k lo hi now) db).db.ZWF :=
